@@ -1,7 +1,7 @@
 """Translator section: the command-line wiring (argparse tables, handler map, keyword wiring of the
 API calls inside the handlers).  Picked up by translate.run()."""
 import ast
-from translate import GenError, lstr, lean, lit_or_src, opt
+from translate import GenError, lstr, lean, lit_or_src, opt, signature
 
 
 def dest_of(flags, kw):
@@ -74,6 +74,38 @@ def gen_cli(S, info):
                 wiring[ast.unparse(n.func)] = [(k.arg, ast.unparse(k.value)) for k in n.keywords]
     if 'api.get_basis' not in wiring or 'api.get_references' not in wiring:
         raise GenError('handlers no longer call api.get_basis / api.get_references with keywords')
+    # every library call of every handler, with positional arguments resolved to the callee's parameter names
+    MODS = {'api': ['api.py'], 'bundle': ['bundle.py'], 'convert': ['convert.py'], 'manip': ['manip.py', 'ints.py'],
+            'readers': ['readers/read.py'], 'writers': ['writers/write.py'], 'refconverters': ['refconverters/convert.py']}
+
+    def callee_sig(mod, name):
+        for rel in MODS[mod]:
+            for g in ast.walk(S.tree(rel)):
+                if isinstance(g, ast.FunctionDef) and g.name == name:
+                    return signature(g)[0]
+        raise GenError('handler calls %s.%s, which is not defined in %s' % (mod, name, MODS[mod]))
+    hcalls, hret = {}, {}
+    for f in S.funcs('cli/bse_handlers.py'):
+        if not f.name.startswith('_bse_cli_'):
+            continue
+        cl = []
+        nodes = [n for n in ast.walk(f) if isinstance(n, ast.Call) and isinstance(n.func, ast.Attribute) and isinstance(n.func.value, ast.Name) and n.func.value.id in MODS]
+        nodes.sort(key=lambda n: (n.lineno, n.col_offset))
+        for n in nodes:
+            mod, name = n.func.value.id, n.func.attr
+            params = callee_sig(mod, name)
+            if len(n.args) > len(params) or any(isinstance(a, ast.Starred) for a in n.args) or any(k.arg is None for k in n.keywords):
+                raise GenError('%s: call of %s.%s cannot be bound to its parameters' % (f.name, mod, name))
+            bound = [(params[i], ast.unparse(a)) for i, a in enumerate(n.args)] + [(k.arg, ast.unparse(k.value)) for k in n.keywords]
+            if any(k not in params for k, _ in bound) or len(set(k for k, _ in bound)) != len(bound):
+                raise GenError('%s: call of %s.%s names a parameter twice or an unknown one' % (f.name, mod, name))
+            cl.append(('%s.%s' % (mod, name), bound))
+        hcalls[f.name] = cl
+        rets = [n for n in ast.walk(f) if isinstance(n, ast.Return)]
+        direct = None
+        if len(rets) == 1 and isinstance(rets[0].value, ast.Call) and rets[0].value in nodes and len(f.body) <= 2 and f.body[-1] is rets[0]:
+            direct = '%s.%s' % (rets[0].value.func.value.id, rets[0].value.func.attr)    # the body is `return <that call>` (after the docstring)
+        hret[f.name] = direct
     # the normaliser: which args attributes cli_check_normalize_args rewrites
     ck = S.func('cli/check.py', 'cli_check_normalize_args')
     norm = []
@@ -82,7 +114,6 @@ def gen_cli(S, info):
             norm.append((n.lineno, n.targets[0].attr, ast.unparse(n.value)))
     norm = [(a, b) for _, a, b in sorted(norm)]
     gr = S.func('api.py', 'get_references')
-    from translate import signature
     rnames, rdefaults = signature(gr)
     info['cli_subcommands'] = len(order)
     out = ['/-! generated from cli/bse_cli.py, cli/bse_handlers.py, cli/check.py — do not edit -/', 'namespace BSE.Gen.Cli', '',
@@ -100,6 +131,10 @@ def gen_cli(S, info):
     out.append('def getRefsWiring : List (String × String) := %s' % lean(wiring['api.get_references']))
     out.append('def getRefsParams : List String := %s' % lean(rnames))
     out.append('def getRefsDefaults : List String := %s' % lean([repr(d) for d in rdefaults]))
+    out.append('/-- every call into the library a handler makes, in source order: (callee, [(parameter of the callee, source text of the argument)]) -/')
+    out.append('def handlerCalls : List (String × List (String × List (String × String))) := %s' % lean(sorted(hcalls.items())))
+    out.append('/-- `some callee` when the whole body of the handler is `return <call of callee>` -/')
+    out.append('def handlerReturnsCall : List (String × Option String) := [%s]' % ', '.join('(%s, %s)' % (lstr(k), opt(v)) for k, v in sorted(hret.items())))
     out.append('/-- attributes rewritten by cli_check_normalize_args: (attribute, source text) -/')
     out.append('def normalisers : List (String × String) := %s' % lean(norm))
     out += ['', 'end BSE.Gen.Cli', '']
